@@ -188,8 +188,15 @@ def route_requests(p, c, m):
         base[prm["name"]] = [valid_value(prm), valid_value(prm)] if prm.get("slice") else valid_value(prm)
     out = []
 
-    def add(label, values=None, body="valid", script=None, **tags):
+    def add(label, values=None, body="valid", script=None, decoy=None, **tags):
         rq = build_request(m["verb"], tmpl, params, values if values is not None else base, body)
+        if decoy:
+            # the same wire name, carried in ANOTHER location than the declared one
+            dloc, dname, dval = decoy
+            if dloc == "query":
+                rq["query"] = list(rq["query"]) + [(dname, dval)]
+            elif dloc == "form":
+                rq["form"] = list(rq["form"] or []) + [(dname, dval)]
         out.append((label, tags, rq, script or {}))
 
     add("valid")
@@ -198,6 +205,7 @@ def route_requests(p, c, m):
     add("op-error", script={m["name"]: {"fail": True}})
     add("op-status", script={m["name"]: {"status": 418}})
     add("op-error-status", script={m["name"]: {"fail": True, "status": 409}})
+    add("op-error-2xx-status", script={m["name"]: {"fail": True, "status": 202}})
     add("op-header", script={m["name"]: {"headers": {"X-Verif": "h1"}, "status": 201}})
     if sec:
         for i in range(len(sec)):
@@ -217,6 +225,12 @@ def route_requests(p, c, m):
             v = dict(base)
             v[n] = None
             add("missing:" + n, v, missing_loc=prm["loc"])
+            has_body = any((not q["ctx"]) and q["loc"] == "body" for q in params)
+            if prm["loc"] == "form":
+                add("missing+query-decoy:" + n, v, decoy=("query", wire(prm), valid_value(prm)), missing_loc="form")
+            elif prm["loc"] == "query" and m["verb"] != "GET" and not has_body and \
+                    not any(q["loc"] == "form" and wire(q) == wire(prm) for q in real):
+                add("missing+form-decoy:" + n, v, decoy=("form", wire(prm), valid_value(prm)), missing_loc="query")
             if sec:
                 add("missing+refused:" + n, v, script={"refuse": {"*": {"status": 401, "message": "gate first"}}})
         t = prm["type"]
